@@ -203,7 +203,9 @@ REWRITE = {
              "SESSIONS (c06_every_history_publishes_in_order, c06_every_cut_is_closed): in the session model of C04 (fillers into any directory, multi-writer calls, the recursive merge; kernels regenerated from the source) "
              "the stored lists and shard files form publication logs stamped by one counter, and for every history that completes every list document ever published references only shard files (with the recorded digest) and child lists "
              "published strictly before it; hence the crash state at ANY moment - the log cut at that stamp - resolves all references of every visible document. "
-             "PARTIAL: that the real sessions' effect traces satisfy the effect-level discipline (temporary, close, rename; the dataset description file) is checked per run:")],
+             "BRIDGE (c06_publications_obey_the_discipline): a session seen as a sequence of publications (new shard file; metadata file replaced through a temporary, the pinned shape of safe_update_file) whose every publication uses a fresh path, "
+             "references only complete files already on disk and keeps what the replaced document referenced obeys the effect-level discipline, hence every crash point inside it is consistent. "
+             "PARTIAL: that the real sessions' effect traces are such sequences (the mapping from the session model's publications to paths; the dataset description file) is checked per run:")],
     "C14": [("PARTIAL: the per-interface composition bounds (e.g. 3T+2+k shard files for the shuffled concurrent reader) are derived by hand and checked by runs",
              "COMPOSED for the synchronous interface (c14_sync_interface_readahead): the shuffle buffer over the lazy chain of shards over any stream of paths satisfies (opened-1)*m <= yielded+shuffle at every moment (every shard >= m >= 1 examples). "
              "PARTIAL: the composition bounds of the concurrent and async interfaces (e.g. 3T+2+k shard files for the shuffled concurrent reader) are derived by hand and checked by runs")],
